@@ -82,6 +82,10 @@ def mk(kind="list", n: int = 2):
         return None
     if kind == "float":
         return n / 2.0
+    if kind == "matrix":
+        return [[i, i + 1] for i in range(n)]
+    if kind == "lod":
+        return [{"i": i, "l": [i]} for i in range(n)]
     if kind == "tuple":
         return tuple(range(n))
     if kind == "pairs":
@@ -265,6 +269,24 @@ def setkey(x, k, v):
     return {k: v}
 
 
+def deepmut(x, v="deep"):
+    """mutates, in place, an element nested inside the input (depth 2)"""
+    _log("deepmut")
+    if isinstance(x, list) and x:
+        if isinstance(x[0], list):
+            x[0].append(v)
+        elif isinstance(x[0], dict):
+            x[0][v] = 1
+            if isinstance(x[0].get("l"), list):
+                x[0]["l"].append(v)
+    elif isinstance(x, dict):
+        for val in x.values():
+            if isinstance(val, list):
+                val.append(v)
+                break
+    return x
+
+
 def dfcol(x, name):
     _log("dfcol")
     import pandas as pd
@@ -294,7 +316,7 @@ def after3(x):
 
 FIRST = [one, lit, num, flt, mk, firstcat]
 DATA = [add, mulf, flagged, pair, none_default, optint, unann, cat, ident, withctx, sub, nocache, ctxmut, boom, needs,
-        push, setkey, dfcol, after1, after2, after3]
+        push, setkey, dfcol, deepmut, after1, after2, after3]
 STATE = [getvar, tag, mutvar]
 ATTRS = {"attr_up": dict(ABC="abc"), "attr_low": dict(abc="x"), "vol": dict(volatile=True)}
 
